@@ -50,7 +50,7 @@ SPEC = {
     "prop": "lrrun",
     "gen_extra": ["plain"],
     "mod": "ParolModel.Props.C03",
-    "more_mods": ["ParolModel.Props.C03b"],
+    "more_mods": ["ParolModel.Props.C03b", "ParolModel.Props.C03c"],
     "files": FILES,
     "oracle_req": oracle_req,
     "nontrivial": nontrivial,
@@ -63,15 +63,16 @@ SPEC = {
         "the Lean function `lrRun` mirrors LRParser::parse_into (shift / reduce with pop_n over interleaved skip tokens / accept reducing the first start production / build_tree); agreement is observed on the explored runs",
         "completeness (every sentence accepted) is a theorem for every table that passes the verified validator lrCompleteCertB (lr_complete, Props/C03b.lean; translation validation, no assumption about lalry); that parol's conflict-free tables pass the validator is evaluated on every real table of the check (oracle lr-cert-ok), not proved for all grammars",
         "that table construction completes without crashing is observed (catch_unwind) on the explored conflict-free grammars; lalry panics on some conflicting grammars (finding F13, C26)",
+        "tree/action half (Props/C03c.lean): lr_tree_actions, lr_reductions_rev_rightmost, lr_action_arity and lr_treeCheck_ok are theorems about the MODEL lrRun for every table that passes lrTableValid and every token sequence without a significant token of type 0 (lr_treeCheck_ok additionally: untrimmed run, token ids = positions, as the harness numbers them); for the real parser the same executable statement treeCheck is still evaluated on every successful real run (oracle lr-tree-check), and real output = model output is observed by the differential run",
     ],
 }
 
 CLAIM = {
     "category": "proof",
-    "text": "Theorem lr_sound: for EVERY table that passes the verified checker lrTableValid (accessing symbols consistent; state 0 without incoming transitions; every Reduce(A,p) only in states all of whose backward paths spell rhs(p), lhs(p)=A; Accept only on EOI in states whose backward paths spell the first start production and end in state 0; no shift on EOI) and EVERY token sequence, success of the model of LRParser::parse_into implies membership in the language of the transformed grammar — no assumption about lalry. The checker is evaluated on every real table. Theorem lr_complete (Props/C03b, translation validation in the style of Jourdan/Pottier/Leroy): for EVERY table that passes the verified validator lrCompleteCertB (LR(1) item sets computed as least fixpoint from state 0 along the table's own transitions, then verified: start items in state 0, closure w.r.t. closed nullable/FIRST tables, every item's next symbol has the matching shift/goto with the advanced item in the target, every completed item's lookaheads carry Reduce by that rule or Accept; start symbol isolated) every sentence is accepted, whatever the skip tokens and options without depth limit; lr_accepts_iff / lr_accepts_iff_bound (with the termination checker: the run with the explicit fuel lrSummFuel decides membership); exLRbad_incomplete shows a valid table that fails the validator and rejects a sentence. The validator is evaluated on every conflict-free real table (all pass). The model is tied to the code by exact differential runs (result, action trace with arguments, tree events, comments). Equality with the ORIGINAL grammar's language (through parol's transformations), and the tree/reduction clauses are decided on the real output per explored grammar by the verified membership recogniser and the executable statement treeCheck (inner node = production with its rhs as significant children in order; reductions once each in post-order = reverse rightmost derivation; root = start symbol; leaves = all tokens).",
+    "text": "Theorem lr_sound: for EVERY table that passes the verified checker lrTableValid (accessing symbols consistent; state 0 without incoming transitions; every Reduce(A,p) only in states all of whose backward paths spell rhs(p), lhs(p)=A; Accept only on EOI in states whose backward paths spell the first start production and end in state 0; no shift on EOI) and EVERY token sequence, success of the model of LRParser::parse_into implies membership in the language of the transformed grammar — no assumption about lalry. The checker is evaluated on every real table. Theorem lr_complete (Props/C03b, translation validation in the style of Jourdan/Pottier/Leroy): for EVERY table that passes the verified validator lrCompleteCertB (LR(1) item sets computed as least fixpoint from state 0 along the table's own transitions, then verified: start items in state 0, closure w.r.t. closed nullable/FIRST tables, every item's next symbol has the matching shift/goto with the advanced item in the target, every completed item's lookaheads carry Reduce by that rule or Accept; start symbol isolated) every sentence is accepted, whatever the skip tokens and options without depth limit; lr_accepts_iff / lr_accepts_iff_bound (with the termination checker: the run with the explicit fuel lrSummFuel decides membership); exLRbad_incomplete shows a valid table that fails the validator and rejects a sentence. The validator is evaluated on every conflict-free real table (all pass). The model is tied to the code by exact differential runs (result, action trace with arguments, tree events, comments). Theorem lr_tree_actions (Props/C03c): for EVERY table that passes lrTableValid and EVERY token sequence, a successful run of the model has a derivation tree d with the skipped tokens attached (DTree: token leaf | production application node p lhs kids; d.wf: every inner node is production p of the grammar with lhs = its left-hand side and its counting children = its right-hand side in order) that is rooted at the start symbol, has the significant token types of the input as frontier, whose post-order list of production applications with their counting children as arguments IS the recorded action trace (every application once, children before parents), whose leaves preceded by the leading skipped tokens are all delivered tokens in order, and whose pre-order event rendering below the artificial root IS the recorded tree. dtree_is_derivation: a well-formed tree derives its frontier (Yield); dtree_postorder_rev_rightmost / lr_reductions_rev_rightmost: the reported reductions read backwards are a rightmost derivation (RmDeriv: each step rewrites a non-terminal followed by terminals only) of the input from the start symbol; lr_action_arity: every recorded action of production p has exactly |rhs p| arguments and they are rhs p in order (finding F20 violated exactly this in the real code); lr_treeCheck_ok: the executable statement treeCheck, instantiated as in the handler lr-tree-check (lrTreeCheck_eq_handler), accepts the model's own output on every successful untrimmed run. Equality with the ORIGINAL grammar's language (through parol's transformations) is decided on the real output per explored grammar by the verified membership recogniser; for the REAL parser the tree/reduction clauses are decided per run by the same executable statement treeCheck (inner node = production with its rhs as significant children in order; reductions once each in post-order = reverse rightmost derivation; root = start symbol; leaves = all tokens) and transfer from the model through the exact differential comparison.",
     "design_ref": "DESIGN.md §6 C03",
     "note": "Trusted: Lean kernel; faithfulness of the hand-written model as observed by the differential run; harness and orchestrator. Not proved: that lalry's construction always yields tables passing the validators (lalry is external; validated per table). Cyclic grammars are excluded from this generator because the real parser does not terminate on them (F24, reported under C19).",
-    "technique": "Lean 4 proof (soundness and completeness for all validated tables and all inputs; translation validation of the real LALR(1) tables) over hand-written model + differential correspondence check + verified table checker and membership oracle on real output",
+    "technique": "Lean 4 proof (soundness, completeness and derivation-tree/action clauses for all validated tables and all inputs; translation validation of the real LALR(1) tables) over hand-written model + differential correspondence check + verified table checker and membership oracle on real output",
 }
 
 
